@@ -129,7 +129,19 @@ func buildTestBinary(root, pkg, out string, race bool) (string, error) {
 	return string(b), err
 }
 
+// isolateReplays makes replays/ a module of its own: replay directories hold
+// printed designs (design.go) that must not become packages of module verif.
+func isolateReplays(root string) {
+	dir := filepath.Join(root, "replays")
+	if err := os.MkdirAll(dir, 0o755); err == nil {
+		if _, err := os.Stat(filepath.Join(dir, "go.mod")); err != nil {
+			_ = os.WriteFile(filepath.Join(dir, "go.mod"), []byte("module replays\n\ngo 1.22\n"), 0o644)
+		}
+	}
+}
+
 func runCheck(id string, spec Spec, tier string, seed int64) int {
+	isolateReplays(verifRoot())
 	if spec.Engine == "B" {
 		return runEngineB(id, spec, tier, seed)
 	}
